@@ -269,7 +269,20 @@ def validator_harness(cfgname, kind):
     return harness
 
 
+class _PostFail(__import__("traits.api", fromlist=["TraitType"]).TraitType):
+    """a trait whose post_setattr hook raises: also while the default is being materialised on the first read"""
+    default_value = ("fresh", "default")
+
+    def get_default_value(self):
+        from traits.api import DefaultValue
+        return (DefaultValue.callable_and_args, (lambda: ["a fresh default"], (), {}))
+
+    def post_setattr(self, object, name, value):
+        raise RuntimeError("post_setattr raises")
+
+
 class _Probe(HasTraits):
+    pf = _PostFail()
     a = Int(3)
     f = Float()
     l = List(Int)
@@ -301,7 +314,7 @@ def access_harness(which):
     """first read (getattr_trait + default_value_for for each default kind) and assignment (setattr_trait) on a real object"""
     def harness(ex):
         o = _Probe()
-        names = ["a", "f", "l", "d", "s", "i", "n"] + (["bad", "e", "e_ok"] if which == "read" else [])
+        names = ["a", "f", "l", "d", "s", "i", "n"] + (["bad", "e", "e_ok", "pf"] if which == "read" else ["pf"])
         name = names[ex.choice("attr", len(names))]
         it = cenv.new_interp()
         os_ = cenv.hastraits_struct(it, o)
@@ -317,7 +330,7 @@ def access_harness(which):
                     if r is NULL and it.st.err is None:
                         problem = "NULL returned without an exception set"
                 else:
-                    val = {"a": 5, "f": 2.5, "l": [1], "d": {"k": 1}, "s": {1}, "i": c03.A(), "n": "v"}[name]
+                    val = {"a": 5, "f": 2.5, "l": [1], "d": {"k": 1}, "s": {1}, "i": c03.A(), "n": "v", "pf": ["assigned"]}[name]
                     if ex.flag("invalid"):
                         val = object() if name != "n" else val
                     rc = it.call(t.setattr, [ct, ct, os_, name, val])
@@ -533,6 +546,7 @@ def delegate_access_harness(ex):
         class Tgt(HasTraits):
             x = Int(1)
             pre_y = Int(2)
+            w = Int(3)
 
         class Other(HasTraits):
             pass
@@ -542,13 +556,14 @@ def delegate_access_harness(ex):
             x = DelegatesTo("t")
             y = PrototypedFrom("t", prefix="pre_*")
             z = DelegatesTo("t", prefix="x")
+            w = DelegatesTo("t", prefix="*")         # class-prefix style on a class that declares no __prefix__
 
         o = D()
         if state == 0:
             o.__dict__["t"] = Tgt()
         elif state == 2:
             o.__dict__["t"] = Other()
-        name = ["x", "y", "z"][ex.choice("name", 3)]
+        name = ["x", "y", "z", "w"][ex.choice("name", 4)]
     it = cenv.new_interp()
     os_ = cenv.hastraits_struct(it, o)
     it.st.rc.clear()
